@@ -1,7 +1,13 @@
+import os
+# Repairs of known-findings.d/txn-fix-* that the tree under test contains: any of webhooks, syncdb, settings, pin
+# (comma separated). Selects the repaired entries of Model/Txn.lean (`shapeTable fixed`, `webhooksCtorOf fixed`) in
+# the driver; a selection that lags behind the tree is reported as a shape_fact/… or ctor_fact/… mismatch.
+TXN_FIXED = ""
 PROP = dict(
     engine="txn", harness="txn", driver="drv_txn",
+    driver_args=["--fixed=" + os.environ.get("VERIF_TXN_FIXED", TXN_FIXED)],
     props=["Hostd.Props.C18"],
-    flag_filter=r"^c18/|^vop",
+    flag_filter=r"^c18/|^vop|^ctor_fact",
     quick=dict(n=20, len=14, shards=10, timeout=400, extra=dict(c18="1")),
     thorough=dict(n=160, len=30, shards=16, timeout=1700, extra=dict(c18="1")),
     nontrivial=r"^restart ", min_ops=6, min_kinds=2,
